@@ -80,7 +80,11 @@ def roundtrip(versions, shapes):
         env = C.make_env(w)
         with env.installed():
             g = C.make_gateway(w, version)
-            C.gen_network(w, g, shape)
+            C.VARLEN_VALUES = True  # reported values may be empty strings
+            try:
+                C.gen_network(w, g, shape)
+            finally:
+                C.VARLEN_VALUES = False
             sensors = g.gw.sensors
             w.info = {"version": version, "shape": shape}
             want = P.snapshot(sensors)
@@ -117,7 +121,7 @@ def build(tier):
         shapes += [["sleep2", "awake", "bare"], ["sleep_old", "awake1"]]
     hs = [Harness("roundtrip", roundtrip(["1.4", "2.2"] if q else C.VERSIONS, shapes),
                   {"shapes": shapes, "ids": "symbolic 0..255 / 0..254", "strings": "symbolic "
-                   "code points", "value_type_keys": "symbolic"},
+                   "code points, reported values of length 0..1", "value_type_keys": "symbolic"},
                   goals=["roundtrip"],
                   doc="load(save(state)) == persisted projection, JSON == pickle, no transients")]
     return {
